@@ -231,6 +231,11 @@ func (f *FrozenFunds) getOrderedDirty() []uint64 {
 }
 
 func (f *FrozenFunds) AddFund(height uint64, address types.Address, pubkey *types.Pubkey, candidateId uint32, coin types.CoinID, value *big.Int, moveToCandidate uint32) {
+	if pubkey != nil {
+		// keep a copy: callers pass a pointer into the live candidate, whose key may change later
+		key := *pubkey
+		pubkey = &key
+	}
 	f.GetOrNew(height).addFund(address, pubkey, candidateId, coin, value, moveToCandidate)
 	f.bus.Checker().AddCoin(coin, value)
 }
